@@ -114,6 +114,12 @@ func (c *Ctx) runSamplerPair(rule string, pkgs []*packages.Package) {
 						c.ok(rule, key, d.Pos(), "sampler and density fall back on the material under the same condition")
 					case okS && okD:
 						c.bad(rule, key, d.Pos(), "the sampler falls back on the material when ("+gs+") but the density when ("+gd+"): for inputs where the two differ the density does not describe the sampler")
+					case fallsBackSomewhere(s, "SampleSource", "SampleDest") && fallsBackSomewhere(d, "SourceDensity", "DestDensity"):
+						// both fall back, but one of them not in the "if cond { return
+						// mat.X(..) }" form (e.g. the fallback is the final return and
+						// the guard is inverted): the conditions are not comparable
+						// as text, no claim
+						c.ok(rule, key, d.Pos(), "sampler and density both fall back on the material; the guards are written in different forms and are not compared")
 					default:
 						c.bad(rule, key, d.Pos(), "only one of sampler and density falls back on the material's own distribution")
 					}
@@ -240,4 +246,34 @@ func (c *Ctx) runSamplerPairFuncs(rule string, pkgs []*packages.Package) {
 			}
 		}
 	}
+}
+
+// fallsBackSomewhere: some return statement of fd hands back the result of a
+// call of one of the named methods.
+func fallsBackSomewhere(fd *ast.FuncDecl, names ...string) bool {
+	found := false
+	ast.Inspect(fd.Body, func(n ast.Node) bool {
+		if _, ok := n.(*ast.FuncLit); ok {
+			return false
+		}
+		ret, ok := n.(*ast.ReturnStmt)
+		if !ok || len(ret.Results) != 1 {
+			return true
+		}
+		call, ok := ast.Unparen(ret.Results[0]).(*ast.CallExpr)
+		if !ok {
+			return true
+		}
+		sel, ok := call.Fun.(*ast.SelectorExpr)
+		if !ok {
+			return true
+		}
+		for _, nm := range names {
+			if sel.Sel.Name == nm {
+				found = true
+			}
+		}
+		return true
+	})
+	return found
 }
